@@ -30,6 +30,9 @@ def specs(r):
         if i >= len(r["obs"]) or "truncated" in r["obs"][i]:
             break
         ob = r["obs"][i]
+        if o["op"] == "sch" and o["call"] == 5 and ob["res"][0] == "e" and ob["res"][1] != "SchedulerError":
+            # a valid one-shot request must yield a job planned for the stated instant; a crash plans nothing
+            qs.append(("spec eq 0 1", {"what": "once_accepted", "op": i, "error": ob["res"][1], "timing": o["timings"][0]}))
         if o["op"] == "sch" and ob["res"][0] == "j":
             k = ob["res"][1]
             due = ob["jobs"][k][0]
